@@ -445,7 +445,12 @@ class DestHandler:
             raise InvalidDestinationId(self.cfg.local_entity_id, packet.dest_entity_id)
         if self.remote_cfg_table.get_cfg(packet.source_entity_id) is None:
             raise NoRemoteEntityCfgFound(entity_id=packet.dest_entity_id)
-        if get_packet_destination(packet) == PacketDestination.SOURCE_HANDLER:
+        try:
+            packet_destination = get_packet_destination(packet)
+        except ValueError as e:
+            # For example an ACK PDU which acknowledges neither an EOF nor a Finished PDU.
+            raise InvalidPduForDestHandler(packet) from e
+        if packet_destination == PacketDestination.SOURCE_HANDLER:
             raise InvalidPduForDestHandler(packet)
         if (self.states.state == CfdpState.IDLE) and (
             packet.pdu_type == PduType.FILE_DATA
